@@ -83,6 +83,15 @@ CLAIMS = {
    note="Trusted: TLC, Fix.tla, math.sin/cos/exp used only to tabulate witness basis values for the free-basis orthogonality clause.",
    technique="TLA+ normal-equation spec model-checked on small data sets + trace validation with exact fixed-point sums",
    ref="5/C17"),
+ "C12": dict(
+   text="Interp.tla specifies the table (ascending, same points), the unique interpolant (Newton form in exact fixed point), the "
+        "generating polynomial as oracle for value/derivative, and the effective search interval of root/minmax (limits ordered "
+        "and clipped to the table, model-checked against the clamping code on a grid). TLC judges every constructor, evaluation, "
+        "refusal and root/extremum call recorded from real Interpolation objects: the returned abscissa must lie in the clipped "
+        "interval and the exact polynomial (or its derivative) must vanish there to the object's tolerance whenever it changes sign.",
+   note="Trusted: TLC, Fix.tla; abscissae on a quarter grid so divided differences are exact integer divisions.",
+   technique="TLA+ interpolation spec with exact polynomial oracle; interval law model-checked; trace validation",
+   ref="5/C12"),
 }
 
 PENDING_REASON = "check not built yet in this round (specification module planned in DESIGN.md section 5); not claimed until its trace specification validates the unchanged tree"
